@@ -279,7 +279,22 @@ def sim_step(orig, self, step_size=EventTime(1, EventTime.Unit.US)):
 
 def sim_handle(orig, self, event):
     pend = [[us(e.time), e.event_type.name, un(e.task)] for e in self._event_queue._event_queue]
-    LOG.append(["handle", us(event.time), event.event_type.name, un(event.task), us(self._simulator_time), pend])
+    entry = ["handle", us(event.time), event.event_type.name, un(event.task), us(self._simulator_time), pend]
+    if event.event_type == EventType.TASK_PLACEMENT and event.placement is not None and event.task is not None:
+        # what the TASK_PLACEMENT event carries and the graph-level fact the handler reads (stream S-handlers)
+        try:
+            pl = event.placement
+            pool = self._worker_pools.get_worker_pool(pl.worker_pool_id)
+            wname = None
+            if pl.worker_id is not None and pool is not None:
+                wname = next((w.name for w in pool.workers if w.id == pl.worker_id), "?")
+            tg = self._workload.get_task_graph(event.task.task_graph)
+            entry.append({"pool": pool.name if pool is not None else None, "worker": wname,
+                          "strategy": strat_desc(pl.execution_strategy) if pl.execution_strategy is not None else None,
+                          "gcancelled": bool(tg.is_cancelled()) if tg is not None else None})
+        except Exception as e:          # the observation must never change the run
+            entry.append({"error": type(e).__name__})
+    LOG.append(entry)
     r = orig(self, event)
     if event.event_type == EventType.UPDATE_WORKLOAD:
         note_graphs(self._workload)
